@@ -228,6 +228,8 @@ def o_C04(ctx):
         got = res_of(t)
         if got[0] in ("panic", "missing"):
             continue
+        if first(t, "x_zst") == "0":
+            v.append(([c.id], "%s: a zero-sized visitor (state kept outside the visitor) is handed different callbacks, or gets a different result, than the recording visitor" % c.entry))
         r = expected_events(c)
         exp = [canon_ev(x) for x in (R.ev_token(e) for e in r["events"]) if x != "2,0"]
         evs = evs_of(t)
@@ -510,6 +512,7 @@ def o_C15(ctx):
             continue
         for k, msg in (("x_parse_eq", "parse() and visit() with a recording visitor return different results"),
                        ("x_emptyvisit_eq", "visit() with the empty visitor and with a recording visitor return different results"),
+                       ("x_zst", "visit() with a zero-sized visitor and with a recording visitor differ (result or callbacks)"),
                        ("x_reparse", "re-parsing the serialized bytes of the parsed object does not give an equal object with empty remainder"),
                        ("x_revisit", "re-visiting the serialized bytes does not reproduce the object / the callback sequence"),
                        ("x_selfvisit", "self_visit does not reproduce the object / the callback sequence")):
